@@ -1,7 +1,44 @@
-//! KnowSureThing — reference model (TODO).
+//! Know Sure Thing. Doc: 2 values — `KST` value, `Signal line` value; 1 signal — `KST` crosses the
+//! `Signal line` upwards: full buy, downwards: full sell.
+//! Config: `period1..4` ROC periods, `ma1..4` "ROC1..4 moving average", `signal` signal-line average.
+//! Formula (<https://en.wikipedia.org/wiki/KST_oscillator>):
+//!   KST = MA1(ROC(p1)) * 1 + MA2(ROC(p2)) * 2 + MA3(ROC(p3)) * 3 + MA4(ROC(p4)) * 4 on the close price,
+//!   signal line = SIG(KST).
+//! ROC is the crate's rate of change (x - x[-n]) / x[-n] (a fraction; the Wikipedia page multiplies it by 100).
 use super::*;
 
-/// returns None until the reference is written
-pub fn make(_cfg: &Cfg, _c0: &RC) -> Option<Box<dyn IndRef>> {
-	None
+#[derive(Clone)]
+pub struct Kst {
+	roc: Vec<rm::Win>,
+	ma: Vec<Box<dyn rm::RefVV>>,
+	sig: Box<dyn rm::RefVV>,
+	x: CrossD,
+}
+
+pub fn make(cfg: &Cfg, c0: &RC) -> Option<Box<dyn IndRef>> {
+	let close0 = Q::exact(c0.c);
+	// ROC of the constant prehistory is 0 (for a non-zero price), so is every average of it and KST
+	let zero = Q::exact(0.0);
+	let roc = (1..=4).map(|i| rm::Win::new_q(rm::WinKind::Roc, cfg.int(&format!("period{i}")), close0)).collect();
+	let ma = (1..=4).map(|i| cfg.ma_ref(&format!("ma{i}"), zero)).collect();
+	Some(Box::new(Kst { roc, ma, sig: cfg.ma_ref("signal", zero), x: CrossD::new(0.0) }))
+}
+
+impl IndRef for Kst {
+	fn values(&mut self, c: &RC) -> Vec<Q> {
+		let close = Q::exact(c.c);
+		let mut kst = Q::exact(0.0);
+		for i in 0..4 {
+			// 0/0 or x/0 (a zero price n steps ago): the rate of change is undefined
+			let r = self.roc[i].step(close);
+			let m = self.ma[i].stepq(r);
+			kst = kst + m.scale((i + 1) as f64);
+		}
+		let sl = self.sig.stepq(kst);
+		vec![kst, sl]
+	}
+	fn signals(&mut self, _c: &RC, own: &[f64]) -> Vec<Sig> {
+		vec![sig_sign(self.x.cross(own[0], own[1]))]
+	}
+	indref!(Kst);
 }
